@@ -3,7 +3,7 @@
    Model/Reach.v (supp's analysis: nast.py + scope.py). Proofs: Proofs/ReachProofs.v. *)
 From Coq Require Import List Bool Arith NArith.
 Import ListNotations.
-From Supp Require Import Model.PyCore Model.Reach Model.Sem Proofs.ReachProofs Proofs.ReachCorollaries.
+From Supp Require Import Model.PyCore Model.Reach Model.Sem Proofs.ReachProofs Proofs.ReachCorollaries Proofs.ReachExtra.
 
 (* For every program c of the structured fragment [ok] (any size, any nesting), every execution
    of it from any state p abstracted by the analysis state s (any branch outcomes, any number of
@@ -91,3 +91,11 @@ Proof.
   - apply (ERead 10 0 (upd renv0 0 (Some 1))).
 Qed.
 Print Assumptions C02_unrestricted_refuted.
+
+(* scope.py returns, for the flow that closes a loop, the names its resolution computed with the
+   back edge skipped (instead of walking the body a second time): the two are equal as sets for
+   every loop body, because the transfer function of a body is in gen/kill form. *)
+Theorem C02_second_pass_adds_nothing : forall tg b s x a,
+  In a (an b (an tg (join s (an b (an tg s)))) x) <-> In a (an b (an tg s) x).
+Proof. exact ReachExtra.for_body_end_stable. Qed.
+Print Assumptions C02_second_pass_adds_nothing.
